@@ -271,6 +271,19 @@ def check_established(case, config, order, scu_service, sup_ts, assoc, dul, stat
         if tag != scu_service[u] or (ctx[0], str(ctx[1]), str(ctx[2])) != (usable[u][0], u, usable[u][1]) or args != ('x',):
             raise Violation('C11:lookup:binding', 'get_scu(%s) bound to %r, expected service %d on context %r'
                             % (u, (tag, ctx), scu_service[u], usable[u]), case)
+    # a class proposed (and accepted) only because the entity SERVES it gets its user-side service while the
+    # association is already open: from then on a context exists AND a service exists, so the lookup succeeds
+    late = [u for u in order if u in usable and u not in scu_service][:2]
+    for k, u in enumerate(late):
+        svc_late = make_service(9000 + 3 * k)
+        assoc.ae.add_scu(svc_late, [u])
+        try:
+            tag, ctx, args = assoc.get_scu(u)('late')
+        except Exception as exc:
+            raise Violation('C11:lookup:late-service', 'add_scu for %s after the association was established: get_scu raised %r '
+                            'although context %d was accepted' % (u, exc, usable[u][0]), case)
+        if tag != 9000 + 3 * k or (ctx[0], str(ctx[2])) != usable[u]:
+            raise Violation('C11:lookup:late-service', 'late add_scu for %s: bound to %r, expected context %r' % (u, (tag, ctx), usable[u]), case)
 
 
 # ------------------------------------------------------------------------------------------
